@@ -37,7 +37,14 @@ fn check_seq<'a>(
             r.fail(api, api, inp(), format!("more than {} pieces: {:?}", FUEL, got), format!("{:?}", want));
             return;
         }
-        match step() {
+        let st = match catch(|| step()) {
+            Ok(x) => x,
+            Err(()) => {
+                r.fail(api, api, format!("{} step {} (pieces so far {:?})", inp(), k + 1, got), "<panic>".into(), format!("{:?}", want.get(k)));
+                return;
+            }
+        };
+        match st {
             None => break,
             Some((piece, rem)) => {
                 r.ev(intern(&format!("{}:step", api)));
@@ -77,8 +84,8 @@ fn check_seq<'a>(
         r.fail(api, api, inp(), format!("{:?}", got), format!("{:?}", want));
     }
     // an exhausted iterator stays exhausted
-    if step().is_some() {
-        r.fail(api, api, inp(), "yielded again after returning None".into(), "None".into());
+    if !matches!(catch(|| step()), Ok(None)) {
+        r.fail(api, api, inp(), "yielded again (or panicked) after returning None".into(), "None".into());
     }
 }
 
